@@ -66,6 +66,8 @@ def _h(x):
 
 def enc_filter(f):
     t = f["t"]
+    if t == "EdgeFilter":  # the harness' custom filters with choice tags around the tag-number encoding boundaries
+        return ber.octets(_s(f["value"]), CONTEXT, int(f["n"]))
     tag = FILTER_TAG[t]
     if t in ("And", "Or"):
         return ber.tlv(CONTEXT, True, tag, b"".join(enc_filter(x) for x in f["filters"]))
@@ -97,6 +99,9 @@ def enc_filter(f):
     if t == "CustomFilter":
         return ber.octets(_s(f["value"]), CONTEXT, tag)
     raise ValueError("unknown filter kind %r" % t)
+
+
+EDGE_TAGS = (30, 31, 32, 127, 128)
 
 
 def control_wire(c):
@@ -142,6 +147,8 @@ def enc_auth(a):
         return ber.tlv(CONTEXT, True, 3, b"".join(parts))
     if t == "CustomAuth":
         return ber.octets(_s("%s:%s" % (a["username"], a["password"])), CONTEXT, 1024)
+    if t == "EdgeAuth":
+        return ber.octets(_h(a["token"]), CONTEXT, int(a["n"]))
     raise ValueError("unknown auth kind %r" % t)
 
 
@@ -394,6 +401,8 @@ def _dec_auth(r):
         if sr.more():
             raise Malformed("trailing data in SaslCredentials")
         return out
+    if n in EDGE_TAGS and not k:
+        return {"t": "EdgeAuth", "n": n, "token": r.octs("edge auth", CONTEXT, n).hex()}
     if n == 1024 and not k:  # the harness' own custom credential (documented example)
         u, _, pw = r.text("custom auth", CONTEXT, 1024).partition(":")
         return {"t": "CustomAuth", "username": u, "password": pw}
@@ -461,6 +470,8 @@ def _dec_filter(r, depth):
         if fr.more():
             raise Malformed("trailing data in MatchingRuleAssertion")
         return out
+    if n in EDGE_TAGS and not k:
+        return {"t": "EdgeFilter", "n": n, "value": r.text("edge filter", CONTEXT, n)}
     if n == 1024 and not k:  # the harness' own custom filter (documented example)
         return {"t": "CustomFilter", "value": r.text("custom filter", CONTEXT, 1024)}
     s0, e0 = r.take(c, k, n, "filter")
